@@ -1311,3 +1311,101 @@ func (ex *Exec) callBuiltin(caller *frame, callpos token.Pos, fn *ssa.Builtin, a
 	}
 	panic(engineError{"unknown built-in: " + fn.Name()})
 }
+
+// deepEq: structural equality of two values as a boolean term (used by
+// verifrt.SameState). Functions compare equal (they carry no data the
+// harness could have changed); pointers, maps and channels compare by
+// identity.
+func (ex *Exec) deepEq(x, y Value) *Term {
+	switch a := x.(type) {
+	case nil:
+		if y == nil {
+			return ex.tb.tt
+		}
+		return ex.tb.ff
+	case BV:
+		b, ok := y.(BV)
+		if !ok {
+			return ex.tb.ff
+		}
+		if a.t == nil && b.t == nil {
+			if a.c == b.c && a.w == b.w {
+				return ex.tb.tt
+			}
+			return ex.tb.ff
+		}
+		return ex.tb.Eq(ex.term(a), ex.term(b))
+	case bool, SBool:
+		switch y.(type) {
+		case bool, SBool:
+			ta, tb := ex.boolTerm(x), ex.boolTerm(y)
+			return ex.tb.BOr(ex.tb.BAnd(ta, tb), ex.tb.BAnd(ex.tb.BNot(ta), ex.tb.BNot(tb)))
+		}
+		return ex.tb.ff
+	case string, SymStr:
+		switch y.(type) {
+		case string, SymStr:
+			return ex.strEq(x, y)
+		}
+		return ex.tb.ff
+	case Struct:
+		b, ok := y.(Struct)
+		if !ok || len(a) != len(b) {
+			return ex.tb.ff
+		}
+		return ex.deepEqList([]Value(a), []Value(b))
+	case Array:
+		b, ok := y.(Array)
+		if !ok || len(a) != len(b) {
+			return ex.tb.ff
+		}
+		return ex.deepEqList([]Value(a), []Value(b))
+	case Tuple:
+		b, ok := y.(Tuple)
+		if !ok || len(a) != len(b) {
+			return ex.tb.ff
+		}
+		return ex.deepEqList([]Value(a), []Value(b))
+	case []Value:
+		b, ok := y.([]Value)
+		if !ok || len(a) != len(b) {
+			return ex.tb.ff
+		}
+		return ex.deepEqList(a, b)
+	case Iface:
+		b, ok := y.(Iface)
+		if !ok {
+			return ex.tb.ff
+		}
+		if (a.t == nil) != (b.t == nil) {
+			return ex.tb.ff
+		}
+		if a.t == nil {
+			return ex.tb.tt
+		}
+		if !types.Identical(a.t, b.t) {
+			return ex.tb.ff
+		}
+		return ex.deepEq(a.v, b.v)
+	case *Closure, Closure, *ssa.Function, *ssa.Builtin:
+		return ex.tb.tt
+	}
+	if x == y {
+		return ex.tb.tt
+	}
+	return ex.tb.ff
+}
+
+func (ex *Exec) deepEqList(a, b []Value) *Term {
+	var conj []*Term
+	for i := range a {
+		t := ex.deepEq(a[i], b[i])
+		if t == ex.tb.ff {
+			return ex.tb.ff
+		}
+		if t != ex.tb.tt {
+			conj = append(conj, t)
+		}
+	}
+	return ex.tb.BAnd(conj...)
+}
